@@ -160,15 +160,29 @@ struct Cell { int s, i, j; };
 // Identifiability: singular values of d(usable measured cells)/d(parameters).
 // stds: full true S of every standard; cells: usable cells.
 struct Ident { bool determining = false; R kappa = INFINITY; int rank_expected = 0; R smax = 0, smin = 0, sgauge = 0; int nparams = 0, ncells = 0; };
-static inline Ident identifiability(Box box, const std::vector<Mat> &stds, const std::vector<Cell> &cells, R kappa_limit = 1e5L) {
+struct SRef { int s, i, j; };     // an S cell of standard s
+// extra: unknown standard parameters, each a list of S cells it drives (perturbed together)
+static inline Ident identifiability(Box box, std::vector<Mat> stds, const std::vector<Cell> &cells, R kappa_limit = 1e5L,
+                                    const std::vector<std::vector<SRef>> *extra = nullptr) {
     Ident id;
     auto ps = box.params();
-    int np = (int)ps.size(), nc = (int)cells.size();
+    int nbox = (int)ps.size(), nx = extra ? (int)extra->size() : 0;
+    int np = nbox + nx, nc = (int)cells.size();
     id.nparams = np; id.ncells = nc; id.rank_expected = np - box.gauge();
     if (nc < id.rank_expected) return id;
-    Mat J(nc, np);
     const R h = 1e-7L;
-    for (int k = 0; k < np; k++) {
+    Mat J(nc, np);
+    for (int k = nbox; k < np; k++) {     // unknown standard parameters
+        const auto &refs = (*extra)[k - nbox];
+        std::vector<Mat> Mp(stds.size()), Mm(stds.size());
+        for (auto &r : refs) stds[r.s](r.i, r.j) += h;
+        for (size_t s = 0; s < stds.size(); s++) if (!box.measure(stds[s], Mp[s])) return id;
+        for (auto &r : refs) stds[r.s](r.i, r.j) -= 2 * h;
+        for (size_t s = 0; s < stds.size(); s++) if (!box.measure(stds[s], Mm[s])) return id;
+        for (auto &r : refs) stds[r.s](r.i, r.j) += h;
+        for (int q = 0; q < nc; q++) J(q, k) = (Mp[cells[q].s](cells[q].i, cells[q].j) - Mm[cells[q].s](cells[q].i, cells[q].j)) / (2 * h);
+    }
+    for (int k = 0; k < nbox; k++) {
         C save = *ps[k];
         std::vector<Mat> Mp(stds.size()), Mm(stds.size());
         *ps[k] = save + h; for (size_t s = 0; s < stds.size(); s++) if (!box.measure(stds[s], Mp[s])) { *ps[k] = save; return id; }
